@@ -51,15 +51,15 @@ type hs13Script struct {
 }
 
 type hs13Driver struct {
-	r        *labRun
-	pending  map[string][]hsTok
-	evSeen   int
-	sealBuf  map[string][][2]int // per side: (ctype, epoch) sealed since its last datagram
-	cap      int
-	hrr      bool
-	emitted  map[string]int // per side
-	unknown  []string
-	clientT  bool // a NewSessionTicket datagram has reached the client: its next acknowledgement covers it
+	r       *labRun
+	pending map[string][]hsTok
+	evSeen  int
+	sealBuf map[string][][2]int // per side: (ctype, epoch) sealed since its last datagram
+	cap     int
+	hrr     bool
+	emitted map[string]int // per side
+	unknown []string
+	clientT bool // a NewSessionTicket datagram has reached the client: its next acknowledgement covers it
 }
 
 func sender13(kind string) string {
@@ -231,6 +231,7 @@ func runHs13Script(idx int, sc *hs13Script) hsResult { //nolint:cyclop,gocognit,
 		}
 	}
 	cookieEchoed := false
+	ticketRetx := 0
 	inputs := map[string]int{}
 	for i, st := range sc.Steps {
 		_, _, cestB, cbkB, cretxB := legacy.peerState(r.c)
@@ -382,6 +383,32 @@ func runHs13Script(idx int, sc *hs13Script) hsResult { //nolint:cyclop,gocognit,
 					for _, k := range noAlert {
 						if k != "T" {
 							law("C17 final flight only on peer retransmission: established %s emitted %s on a timer (step %d)", side, k, i)
+						}
+						if k == "T" && side == "s" {
+							// the post-handshake flight backs off like a handshake flight: the interval that has just elapsed is
+							// the configured one doubled once per earlier retransmission (constant without backoff, at most 60 s)
+							ticketRetx++
+							iv := int64(0)
+							for _, e := range r.rec.snapshot() {
+								if e["ev"] == "ph.retx" && e["side"] == "s" {
+									if v, ok := e["interval"].(int64); ok {
+										iv = v
+									}
+								}
+							}
+							want := int64(hsBaseInterval)
+							if !scen.NoBackoff {
+								for d := 1; d < ticketRetx; d++ {
+									want *= 2
+								}
+							}
+							if want > int64(60*time.Second) {
+								want = int64(60 * time.Second)
+							}
+							if iv != 0 && iv != want {
+								law("C17 timer law: retransmission %d of the NewSessionTicket flight came after an interval of %v, expected %v (step %d)",
+									ticketRetx, time.Duration(iv), time.Duration(want), i)
+							}
 						}
 					}
 				}
